@@ -2,6 +2,7 @@ package main
 
 import (
 	"flag"
+	"runtime/pprof"
 	"fmt"
 	"os"
 	"runtime"
@@ -95,7 +96,7 @@ func parseBounds(s string) map[string]int {
 }
 
 func defaultConfig(tier string) Config {
-	cfg := Config{Tier: tier, SolverName: "z3", TimeoutMs: 10000, MaxLoop: 400, MaxSteps: 400000, MaxPaths: 200000, MaxDepth: 60,
+	cfg := Config{Tier: tier, SolverName: "z3-new", TimeoutMs: 10000, MaxLoop: 400, MaxSteps: 400000, MaxPaths: 200000, MaxDepth: 60,
 		DefaultStrBound: 32, MaxViolPerID: 2, Bounds: map[string]int{}}
 	if tier == "thorough" {
 		cfg.TimeoutMs = 60000
@@ -105,8 +106,8 @@ func defaultConfig(tier string) Config {
 }
 
 func printReport(r *HarnessReport, verbose bool) {
-	fmt.Printf("== %s: paths=%d steps=%d obligations=%d discharged=%d violations=%d unknown=%d unwind=%d merged=%d wall=%.1fs solver=%.1fs queries=%d\n",
-		r.Name, r.Paths, r.Steps, r.Obligations, r.Discharged, len(r.Violations), r.Unknowns, r.UnwindHits, r.Merged, r.Wall.Seconds(), r.SolverStats.Time.Seconds(), r.SolverStats.Queries)
+	fmt.Printf("== %s: paths=%d(+%d infeasible) steps=%d obligations=%d discharged=%d violations=%d unknown=%d unwind=%d merged=%d wall=%.1fs solver=%.1fs queries=%d\n",
+		r.Name, r.Paths, r.InfeasiblePaths, r.Steps, r.Obligations, r.Discharged, len(r.Violations), r.Unknowns, r.UnwindHits, r.Merged, r.Wall.Seconds(), r.SolverStats.Time.Seconds(), r.SolverStats.Queries)
 	for _, k := range sortedKeys(r.Unsupported) {
 		fmt.Printf("   UNSUPPORTED x%d: %s\n", r.Unsupported[k], k)
 	}
@@ -152,11 +153,18 @@ func cmdRun(args []string) {
 	workers := fs.Int("workers", runtime.NumCPU(), "parallel workers")
 	trace := fs.Bool("trace", false, "trace instructions")
 	nomerge := fs.Bool("nomerge", false, "disable call merging")
+	eager := fs.Bool("eager", false, "decide feasibility at every branch")
 	verbose := fs.Bool("v", false, "verbose")
 	slog := fs.String("solverlog", "", "write SMT to file")
-	solver := fs.String("solver", "z3", "z3|z3-new|cvc5")
+	solver := fs.String("solver", "z3-new", "z3|z3-new|cvc5")
 	replay := fs.Bool("replay", false, "replay candidates natively")
+	prof := fs.String("cpuprofile", "", "write cpu profile")
 	fs.Parse(args)
+	if *prof != "" {
+		f, _ := os.Create(*prof)
+		pprof.StartCPUProfile(f)
+		defer pprof.StopCPUProfile()
+	}
 	t0 := time.Now()
 	ld, err := Load(envOr("VP_REPO", "/repo"), envOr("VP_HARNESS", "/verif/harness"))
 	if err != nil {
@@ -167,6 +175,7 @@ func cmdRun(args []string) {
 	cfg := defaultConfig(*tier)
 	cfg.Trace = *trace
 	cfg.NoMerge = *nomerge
+	cfg.EagerFeas = *eager
 	cfg.SolverLog = *slog
 	cfg.SolverName = *solver
 	for k, v := range parseBounds(*bounds) {
